@@ -221,7 +221,7 @@ def find_json_objects(text):
 
 def offline(ctx, res):
     seed, tier = ctx["seed"], ctx["tier"]
-    n = 600 if tier == "quick" else 30000
+    n = 3000 if tier == "quick" else 40000
     tmpdir = tempfile.mkdtemp(prefix="c19", dir=ctx["rundir"])
     modes = ["file", "inline", "evaluate-stdin", "output-file", "unwritable-output"]
     samples = []
